@@ -3,7 +3,7 @@ from . import supcommon as S
 
 OCAML = S.OCAML
 GO = S.GO
-FAMILIES = "mixed,startup,reload".split(",")
+FAMILIES = "mixed,startup,reload,errs".split(",")
 PROP = "props/C04.v"
 PROOFS = ["proofs/SupInv.v", "proofs/SupTrig.v", "proofs/SupResult.v"]
 
